@@ -246,3 +246,108 @@ Proof.
   intros Hv. destruct (run_spec c Hv) as (ret & dump & Hr & Hrun). rewrite Hrun. unfold oracle.
   rewrite C28.Proofs.prefix_eqb_app, andb_true_r. destruct Hr as [Hr | Hr]; rewrite Hr; reflexivity.
 Qed.
+
+(* ---- what delete leaves behind, for every state ---------------------------------------------- *)
+Theorem delete_effect st0 target b st' :
+  Inv (rs st0) ->
+  (forall d, d = target \/ In d (nodes st0) -> tmA (fwd (rs st0)) d = false) ->
+  delete st0 target true = Some (b, st') ->
+  exists D,
+    (* D: the deleted ids; the target, otherwise nodes *)
+    In target D /\ incl D (target :: nodes st0) /\
+    (* the nodes in D are gone, the other nodes are still there, in the same order *)
+    nodes st' = filter (fun x => negb (memZ x D)) (nodes st0) /\
+    (* the index invariant still holds *)
+    Inv (rs st') /\
+    (* exactly the references from or to a deleted id are gone *)
+    (forall y r, In r (F (rs st') y) <-> In r (F (rs st0) y) /\ ~ In y D /\ ~ In (snd r) D) /\
+    (* the same in the inverse index *)
+    (forall d, In d D -> R (rs st') d = [] /\ forall y, ~ In d (R (rs st') y)) /\
+    (* every node aggregated by a deleted id is deleted *)
+    (forall x r, In x D -> In r (F (rs st0) x) -> tmA (fwd (rs st0)) (fst r) = true ->
+                 In (snd r) (nodes st0) -> In (snd r) D) /\
+    (* and nothing else: D is included in every set with that closure property *)
+    (forall C, closedset st0 C -> In target C -> incl D C).
+Proof.
+  intros HI Hok E.
+  destruct (delete_char st0 true HI (fun d H => Hok d (or_intror H)) target b st'
+                        (Hok _ (or_introl eq_refl)) E) as (D & HR & Ht & Hcl & Hmin).
+  exists D.
+  assert (InF : forall y r, In r (F (rs st') y) <-> In r (F (rs st0) y) /\ ~ In y D /\ ~ In (snd r) D).
+  { intros y r. rewrite (rel_F _ _ _ _ HR). unfold Fexp.
+    destruct (memZ y D) eqn:Ey.
+    - apply memZ_In in Ey. cbn. tauto.
+    - apply memZ_false in Ey. rewrite filter_In. unfold notin. rewrite negb_true_iff, memZ_false. tauto. }
+  split; [exact Ht|]. split.
+  { apply Hmin; [|left; reflexivity]. intros x r _ _ _ Hn. right. exact Hn. }
+  split; [exact (rel_nodes _ _ _ _ HR)|]. split; [exact (rel_inv _ _ _ _ HR)|].
+  split; [exact InF|]. split; [|split; [exact Hcl|exact Hmin]].
+  intros d Hd. pose proof (inv_conv _ (rel_inv _ _ _ _ HR)) as CV. split.
+  - destruct (R (rs st') d) as [|s l] eqn:ER; [reflexivity|]. exfalso.
+    assert (Hs : In s (R (rs st') d)) by (rewrite ER; left; reflexivity).
+    apply CV in Hs. destruct Hs as (ty & Hs). apply InF in Hs. cbn in Hs. tauto.
+  - intros y Hy. apply CV in Hy. destruct Hy as (ty & Hy). apply InF in Hy. tauto.
+Qed.
+
+(* the flag returned by delete *)
+Theorem delete_returns st n dtr b st' : Inv (rs st) ->
+  delete st n dtr = Some (b, st') ->
+  (b = true <-> In n (nodes st) \/ (dtr = true /\ (F (rs st) n <> [] \/ R (rs st) n <> []))).
+Proof.
+  intros HI E. unfold delete in E. cbn [delete_fuel] in E.
+  destruct dtr.
+  - pose proof (delete_node_references_inv (rs st) n HI) as (_ & _ & _ & Hd & _).
+    destruct (delete_node_references (rs st) n) as [rt rs1]. cbn [fst] in Hd.
+    destruct (dels _ _ _); [|discriminate]. inversion E; subst b.
+    rewrite orb_true_iff, memZ_In, Hd. tauto.
+  - destruct (dels _ _ _); [|discriminate]. inversion E; subst b.
+    rewrite orb_true_iff, memZ_In. split; [intros [H|H]; [auto|discriminate]|].
+    intros [H|[H _]]; [auto|discriminate].
+Qed.
+
+(* ---- the code before the fixes ---------------------------------------------------------------- *)
+(* (1) delete recursed into the children before removing the node: on two nodes that aggregate each
+   other the recursion never ends (in the real code: stack overflow, the process aborts) *)
+Lemma legacy_cycle_diverges st dtr :
+  find_aggregates_of st 1 = Some [2] -> find_aggregates_of st 2 = Some [1] ->
+  forall k, Legacy.delete_fuel k dtr st 1 = None /\ Legacy.delete_fuel k dtr st 2 = None.
+Proof.
+  intros C1 C2. induction k as [|k [I1 I2]]; [split; reflexivity|].
+  split; cbn [Legacy.delete_fuel]; [rewrite C1|rewrite C2]; cbn [opt_list]; [rewrite I2|rewrite I1]; reflexivity.
+Qed.
+
+Definition cycle2 : case :=
+  mk_case [1; 2; 44; 45; 46; 47; 49] [1; 2]
+          [(44, 45, 46); (44, 45, 47); (47, 45, 49); (1, 47, 2); (2, 47, 1)] 1 true.
+Definition st_of (c : case) : astate :=
+  match build c with Built st => st | Failed _ => mk_astate [] empty_refs end.
+
+Lemma legacy_recursion_refuted :
+  valid cycle2 /\
+  (forall k, Legacy.delete_fuel k true (st_of cycle2) (c_target cycle2) = None) /\
+  oracle cycle2 (run cycle2) = true.
+Proof.
+  split; [vm_compute; reflexivity|]. split; [|vm_compute; reflexivity].
+  intros k. apply (legacy_cycle_diverges (st_of cycle2) true); vm_compute; reflexivity.
+Qed.
+
+(* (2) reference_type_matches without the visited set: HasProperty -HasSubtype-> Aggregates closes a
+   cycle, and the search for a type outside the hierarchy (Organizes) never ends *)
+Definition f_cycle : list (Z * list ref) := [(44, [(45, 46)]); (46, [(45, 44)])].
+
+Lemma legacy_type_cycle_refuted :
+  (forall k, Legacy.tm_loop k f_cycle 35 [44] = None) /\
+  reference_type_matches_opt f_cycle 44 35 true = Some false.
+Proof.
+  split; [|vm_compute; reflexivity].
+  assert (H : forall k, Legacy.tm_loop k f_cycle 35 [44] = None /\ Legacy.tm_loop k f_cycle 35 [46] = None).
+  { induction k as [|k [I1 I2]]; [split; reflexivity|]. split.
+    - change (Legacy.tm_loop (S k) f_cycle 35 [44]) with (Legacy.tm_loop k f_cycle 35 [46]). exact I2.
+    - change (Legacy.tm_loop (S k) f_cycle 35 [46]) with (Legacy.tm_loop k f_cycle 35 [44]). exact I1. }
+  intros k. apply H.
+Qed.
+
+(* non-trivial instances *)
+Example cycle2_effect :
+  exists b st', delete (st_of cycle2) 1 true = Some (b, st') /\ nodes st' = [] /\ F (rs st') 1 = [] /\ F (rs st') 44 <> [].
+Proof. eexists _, _. split; [vm_compute; reflexivity|]. split; [reflexivity|]. split; [reflexivity|discriminate]. Qed.
